@@ -627,13 +627,22 @@ func (p *Parser) parseSlots() []*ast.SlotStmt {
 			p.nextToken() // skip ")"
 		}
 
+		var body *ast.BlockStmt
+
+		if p.curTokenIs(token.END) {
+			// the body is empty, we are on its "@end" already
+			body = &ast.BlockStmt{Token: p.curToken}
+		} else {
+			body = p.parseBlockStmt()
+			p.nextToken() // skip block statement
+		}
+
 		slots = append(slots, &ast.SlotStmt{
 			Token: tok, // "@slot"
 			Name:  slotName,
-			Body:  p.parseBlockStmt(),
+			Body:  body,
 		})
 
-		p.nextToken() // skip block statement
 		p.nextToken() // skip "@end"
 
 		for p.curTokenIs(token.HTML) {
